@@ -219,6 +219,9 @@ func c05Rules(rng *rand.Rand, dir, file string) []c05Rule {
 			}
 			return strings.Join(p, "-")
 		}, ",-"},
+		{"ints=--", func(r *rand.Rand) string { return digits(r, 1+r.Intn(3)) + "--" + digits(r, 1+r.Intn(3)) + pick(r, "", "--7", "--"+digits(r, 2)) }, "-1"},
+		{"ints=、", func(r *rand.Rand) string { return digits(r, 1+r.Intn(3)) + "、" + digits(r, 1+r.Intn(3)) + pick(r, "", "、30") }, "、,1"},
+		{"ints=::|msg", func(r *rand.Rand) string { return digits(r, 2) + "::" + digits(r, 1) }, ":1"},
 		{"unique", func(r *rand.Rand) string {
 			pool := []string{"a", "b", "1", "测", "ab", "", "2"}
 			r.Shuffle(len(pool), func(i, j int) { pool[i], pool[j] = pool[j], pool[i] })
